@@ -166,6 +166,24 @@ pub fn nfa_to_dfa<A: Clone>(nfa: &NFA<A>) -> DFA<DfaStateIdx, A> {
         }
     }
 
+    #[cfg(lexgen_verif)]
+    if crate::verif::enabled() {
+        let mut entries: Vec<(usize, String)> = state_map
+            .iter()
+            .map(|(nfa_states, dfa_state)| {
+                (
+                    dfa_state.verif_usize(),
+                    crate::verif::sorted_join(nfa_states.iter().map(|s| s.verif_usize())),
+                )
+            })
+            .collect();
+        entries.sort();
+        crate::verif::emit(&format!("STATEMAP {}", entries.len()));
+        for (dfa_state, nfa_states) in entries {
+            crate::verif::emit(&format!("M {} {}", dfa_state, nfa_states));
+        }
+    }
+
     dfa
 }
 
